@@ -8,6 +8,9 @@ from vlib import e2e, formats
 from vlib import c05_der as der
 from vlib import c05_ref as ref
 from vlib import c05_inputs as inputs
+from vlib import c05_apple as apple
+import zlib
+from urllib.parse import unquote
 from vlib.c05_tools import Tools, run as trun
 from vlib.c05_tsa import TSA
 
@@ -784,8 +787,256 @@ def scen_xap(s, recipe, key, digest, remote=False, ts=False):
     s.distinct.add(("xap", recipe, digest, key, remote))
 
 
+def check_apple_cms(s, info, digest, key, ts=False):
+    """CMS blob of an Apple embedded signature: detached over the CodeDirectory of slot 0"""
+    sd = check_p7(s, info["cms"], digest, key, content=info["cd"], want_ctype="data", label="cms", timestamp="timeStampToken" if ts else None)
+    if sd is not None and sd["signers"]:
+        # Apple's hash-agility attribute 1.2.840.113635.100.9.2: SET OF SEQUENCE { algorithm OID, digest } with the hash of each CodeDirectory
+        attr = sd["signers"][0]["auth"].get("1.2.840.113635.100.9.2")
+        if attr:
+            for v in attr:
+                ch = v.children()
+                alg = ch[0].oidname()
+                if alg in ("sha1", "sha256", "sha384", "sha512"):
+                    s.check(ch[1].content == der.H(alg, info["cd"]), "cdhash-attribute-mismatch", "CMS attribute 1.2.840.113635.100.9.2 (%s) != hash of the CodeDirectory" % alg)
+    return sd
+
+
+def scen_dmg(s, recipe, key, digest, remote=False, ts=False, resign=False):
+    env = s.env
+    src, _ = env.input(recipe)
+    out = env.outpath(".dmg")
+    rc, txt = s.sign(key, src, out, sigtype="dmg", digest=digest, remote=remote, conf=env.ts_conf if ts else None)
+    if rc != 0:
+        return s.problem("C05:harness:sign-failed:dmg", "relic sign failed: " + txt, found=False)
+    if resign:
+        out2 = env.outpath(".dmg")
+        rc, txt = s.sign(key, out, out2, sigtype="dmg", digest=digest, remote=remote)
+        if rc != 0:
+            return s.problem("C05:harness:sign-failed:dmg", "re-signing failed: " + txt, found=False)
+        out = out2
+    d, orig = open(out, "rb").read(), open(src, "rb").read()
+    try:
+        probs, info = apple.dmg_check(d)
+        to = apple.dmg_parse(orig)
+    except (apple.AppleError, struct.error, ValueError) as e:
+        s.check(False, "reference-reader-fails", "reference UDIF / code-signature reader rejects the output: %r" % e)
+        return
+    s.evals += 6
+    for sl, dd in probs:
+        s.check(False, sl, dd)
+    s.check(d[:to["xml_end"]] == orig[:to["xml_end"]], "image-data-changed", "image data before the signature differs from the input")
+    s.check(info.get("alg") == digest, "codedirectory-hash-type", "CodeDirectory hash type %s, requested %s" % (info.get("alg"), digest))
+    check_apple_cms(s, info, digest, key, ts)
+    s.distinct.add(("dmg", recipe, digest, key, remote, ts, resign))
+
+
+def scen_macho(s, recipe, key, digest, remote=False, ts=False, bind=True):
+    """recipe names the app bundle directory among the fixtures; the executable inside is what gets signed"""
+    env = s.env
+    app = os.path.join(e2e.PKGS, recipe.split(":", 1)[1])
+    if os.path.exists(os.path.join(app, "dummyapp")):
+        exe, plist, res = os.path.join(app, "dummyapp"), os.path.join(app, "Info.plist"), os.path.join(app, "_CodeSignature/CodeResources")
+    else:
+        exe, plist, res = os.path.join(app, "Contents/MacOS/dummy"), os.path.join(app, "Contents/Info.plist"), os.path.join(app, "Contents/_CodeSignature/CodeResources")
+    out = env.outpath(".macho")
+    flags = ["--info-plist", plist, "--resources", res] if bind else ["--bundle-id", "com.example.c05"]
+    rc, txt = s.sign(key, exe, out, digest=digest, flags=flags, remote=remote, conf=env.ts_conf if ts else None)
+    if rc != 0:
+        return s.problem("C05:harness:sign-failed:macho", "relic sign failed: " + txt, found=False)
+    d = open(out, "rb").read()
+    try:
+        slices = apple.macho_slices(d)
+        for off, size in slices:
+            probs, info = apple.macho_check(d[off:off + size], open(plist, "rb").read() if bind else None, open(res, "rb").read() if bind else None)
+            s.evals += 4 + sum(len(cd["code"]) for cd in info["dirs"])
+            for sl, dd in probs:
+                s.check(False, sl, dd)
+            s.check(info.get("alg") == digest, "codedirectory-hash-type", "CodeDirectory hash type %s, requested %s" % (info.get("alg"), digest))
+            check_apple_cms(s, info, digest, key, ts)
+            if info.get("sig_off", 0) % 16:
+                s.notes.append("Mach-O code signature placed at an offset that is not a multiple of 16 (codesign_allocate aligns to 16)")
+    except (apple.AppleError, struct.error, ValueError) as e:
+        s.check(False, "reference-reader-fails", "reference Mach-O / code-signature reader rejects the output: %r" % e)
+        return
+    s.facts["slices"] = len(slices)
+    s.distinct.add(("macho", recipe, digest, key, remote, ts, bind))
+
+
+def scen_xar(s, recipe, key, digest, remote=False, ts=False):
+    env, t = s.env, s.env.tools
+    src, _ = env.input(recipe)
+    out = env.outpath(".pkg")
+    rc, txt = s.sign(key, src, out, sigtype="xar", digest=digest, remote=remote, conf=env.ts_conf if ts else None)
+    if rc != 0:
+        return s.problem("C05:harness:sign-failed:xar", "relic sign failed: " + txt, found=False)
+    d = open(out, "rb").read()
+    try:
+        probs, x = apple.xar_check(d)
+        _, xo = apple.xar_check(open(src, "rb").read())
+    except (apple.AppleError, struct.error, ValueError, zlib.error, AttributeError) as e:
+        s.check(False, "reference-reader-fails", "reference xar reader rejects the output: %r" % e)
+        return
+    s.evals += 3 + x["files"]
+    for sl, dd in probs:
+        s.check(False, sl, dd)
+    s.check(x["files"] == xo["files"], "heap-files", "%d heap files after signing, %d before" % (x["files"], xo["files"]))
+    s.check(x["alg"] == digest, "checksum-style", "TOC checksum style %s, requested %s" % (x["alg"], digest))
+    keytype = env.kit.keys[key]["type"]
+    s.check(x["cms"] is not None, "no-cms-signature", "no x-signature style=CMS element")
+    if keytype == "rsa":
+        s.check(x["rsa"] is not None, "no-rsa-signature", "no classic RSA signature element for an RSA key")
+        if x["rsa"] is not None and x["certs"]:
+            # the classic signature is RSASSA-PKCS1-v1_5 with the TOC checksum as the (already computed) digest
+            spki = der.spki_of_cert(x["certs"][0])["spki"]
+            pub, sg, dg = t.put(der.pem("PUBLIC KEY", spki).encode(), ".pub.pem"), t.put(x["rsa"], ".sig"), t.put(x["checksum"], ".dgst")
+            cmd = ["openssl", "pkeyutl", "-verify", "-pubin", "-inkey", pub, "-in", dg, "-sigfile", sg, "-pkeyopt", "digest:" + digest]
+            rc2, o2, e2 = trun(cmd)
+            s.cmd(cmd)
+            s.check(rc2 == 0 and b"Signature Verified Successfully" in o2, "rsa-signature-invalid", "openssl pkeyutl -verify rejects the classic signature over the TOC checksum: " + (o2.decode(errors="replace") + e2)[-200:])
+    if x["cms"] is not None:
+        try:
+            n = der.parse(x["cms"], 0)
+            blob = x["cms"][:n.end]
+            s.check(not any(x["cms"][n.end:]), "cms-padding", "reserved space after the CMS blob is not zero")
+        except der.DerError as e:
+            s.check(False, "cms-not-der", "CMS heap entry does not start with a DER value: %s" % e)
+            return
+        check_p7(s, blob, digest, key, content=x["checksum"], want_ctype="data", label="cms", timestamp="timeStampToken" if ts else None)
+    s.distinct.add(("xar", recipe, digest, key, remote, ts))
+
+
+def scen_vsix(s, recipe, key, digest, remote=False, flags=()):
+    env, t = s.env, s.env.tools
+    src, _ = env.input(recipe)
+    out = env.outpath(".vsix")
+    rc, txt = s.sign(key, src, out, sigtype="vsix", digest=digest, remote=remote, flags=flags)
+    if rc != 0:
+        return s.problem("C05:harness:sign-failed:vsix", "relic sign failed: " + txt, found=False)
+    z = zipfile.ZipFile(out)
+    s.check(z.testzip() is None, "zip-crc", "zip CRC error after signing")
+    sigparts = [n for n in z.namelist() if n.startswith("package/services/digital-signature/xml-signature/") and n.endswith(".psdsxs")]
+    s.check(len(sigparts) == 1, "signature-part-count", "%d signature parts" % len(sigparts))
+    if not sigparts:
+        return
+    sp = env.outpath(".psdsxs")
+    open(sp, "wb").write(z.read(sigparts[0]))
+    rcx, ox, ex = trun(["xmllint", "--noout", sp])
+    s.cmd(["xmllint", "--noout", sp])
+    s.check(rcx == 0, "xmllint-rejects", "signature part is not well-formed XML: " + ex[-200:])
+    res, cmd = t.xmldsig([sp])
+    s.cmd(cmd)
+    keytype = env.kit.keys[key]["type"]
+    s.check(len(res) == 1 and "error" not in res[0], "jdk-validator-error", "validator output: %s" % res[:1], found=False)
+    if len(res) == 1 and "error" not in res[0]:
+        r = res[0]
+        if keytype == "rsa" or r.get("full_ok"):
+            s.check(r.get("full_ok") is True, "jdk-validator-rejects", "XMLSignature.validate of the JDK fails: %s refs=%s sigvalue=%s" % (r.get("full_error"), r.get("full_refs"), r.get("full_sigvalue")))
+        else:
+            s.check(r.get("full_ok") is True, "jdk-validator-rejects-ecdsa", "XMLSignature.validate of the JDK fails on the ECDSA-signed package signature: %s refs=%s sigvalue=%s" % (r.get("full_error"), r.get("full_refs"), r.get("full_sigvalue")))
+    # the Manifest inside the signed Object: one Reference per package part, digest over the part's bytes
+    doc = z.read(sigparts[0]).decode("utf-8")
+    refs = re.findall(r'<Reference URI="(/[^"?]*)\?ContentType=([^"]*)">(.*?)</Reference>', doc, flags=re.S)
+    names = {"/" + n: n for n in z.namelist()}
+    nplain = 0
+    for uri, ctype, body in refs:
+        m = re.search(r'<DigestMethod Algorithm="[^"#]*#([a-z0-9]+)"', body)
+        dv = re.search(r"<DigestValue>([^<]+)</DigestValue>", body)
+        if "<Transforms>" in body or not m or not dv:
+            continue
+        from urllib.parse import unquote
+        part = names.get(unquote(uri))
+        s.check(part is not None, "manifest-names-missing-part", "Manifest references %s which is not in the package" % uri)
+        if part is None:
+            continue
+        nplain += 1
+        s.check(base64.b64encode(hashlib.new(m.group(1), z.read(part)).digest()).decode() == dv.group(1).strip(), "part-digest-mismatch", "DigestValue of %s != %s of the part" % (uri, m.group(1)))
+    payload = [n for n in z.namelist() if not n.endswith("/") and not n.startswith("package/services/digital-signature/") and n != "[Content_Types].xml" and not n.endswith(".rels")]
+    listed = set(unquote(u).lstrip("/") for u, _, _ in refs) if refs else set()
+    missing = [n for n in payload if n not in listed]
+    s.check(not missing, "parts-not-covered", "package parts not covered by the signature manifest: %s" % missing[:4])
+    s.facts["parts"] = nplain
+    s.distinct.add(("vsix", recipe, digest, key, remote, tuple(flags)))
+
+
+def walk_der(node, fn):
+    fn(node)
+    if node.constructed:
+        try:
+            for c in node.children():
+                walk_der(c, fn)
+        except der.DerError:
+            pass
+
+
+def scen_appx(s, recipe, key, digest, remote=False, ts=False):
+    env = s.env
+    src, _ = env.input(recipe)
+    out = env.outpath(".appx")
+    rc, txt = s.sign(key, src, out, sigtype="appx", digest=digest, remote=remote, conf=env.ts_conf if ts else None)
+    if rc != 0:
+        return s.problem("C05:harness:sign-failed:appx", "relic sign failed: " + txt, found=False)
+    d = open(out, "rb").read()
+    try:
+        z = zipfile.ZipFile(io.BytesIO(d))
+        bad = z.testzip()
+        s.check(bad is None, "zip-crc", "zip CRC error in %s after signing" % bad)
+        rc2, o2, e2 = trun(["unzip", "-tqq", out])
+        s.cmd(["unzip", "-tqq", out])
+        s.check(rc2 == 0, "unzip-rejects", "unzip -t reports errors: " + (o2.decode(errors="replace") + e2)[-200:])
+        want, facts = ref.appx_reference(d, digest)
+        bprobs, nblocks = ref.appx_blockmap_check(d)
+        p7x = z.read("AppxSignature.p7x")
+    except (ref.RefError, struct.error, KeyError, zipfile.BadZipFile, ValueError) as e:
+        s.check(False, "reference-reader-fails", "reference APPX reader rejects the output: %r" % e)
+        return
+    s.evals += nblocks + facts["entries"]
+    for sl, dd in bprobs:
+        s.check(False, sl, dd)
+    s.check(p7x[:4] == b"PKCX", "p7x-magic", "AppxSignature.p7x does not start with PKCX")
+    sd = check_p7(s, p7x[4:], digest, key, want_ctype="spcIndirectData", timestamp="msTimeStampToken" if ts else None)
+    ind = check_indirect(s, sd, digest, "spcSipInfo", None, "")
+    if ind is not None:
+        got = ind["digest"]
+        hl = hashlib.new(digest).digest_size
+        s.check(got[:4] == b"APPX" and len(got) == len(want), "appx-digest-layout", "digest blob is %d bytes starting %r, reference has %d" % (len(got), got[:4], len(want)))
+        for i in range(4, min(len(got), len(want)), 4 + hl):
+            tag = want[i:i + 4].decode()
+            s.check(got[i:i + 4 + hl] == want[i:i + 4 + hl], "appx-%s-mismatch" % tag.lower(), "%s digest in the signature %s != reference %s" % (tag, got[i + 4:i + 4 + hl].hex(), want[i + 4:i + 4 + hl].hex()),
+                    embedded=got[i + 4:i + 4 + hl].hex(), reference=want[i + 4:i + 4 + hl].hex())
+    # the code-integrity catalog: a signed CTL whose members are the Authenticode hashes of the PE files in the package
+    if "AppxMetadata/CodeIntegrity.cat" in z.namelist():
+        cat = z.read("AppxMetadata/CodeIntegrity.cat")
+        csd = check_p7(s, cat, digest, key, want_ctype="ctl", label="catalog", timestamp="msTimeStampToken" if ts else None)
+        if csd is not None and csd["econtent"] is not None:
+            members = set()
+
+            def visit(n):
+                if n.tag == 0x30:
+                    try:
+                        ch = n.children()
+                        if len(ch) == 2 and ch[0].tag == 0x06 and ch[0].oidname() == "spcIndirectData" and ch[1].tag == 0x31:
+                            for v in ch[1].children():
+                                members.add(der.parse_spc_indirect(v)["digest"])
+                    except (der.DerError, IndexError):
+                        pass
+            walk_der(csd["econtent"], visit)
+            pes = {}
+            for n in z.namelist():
+                data = z.read(n)
+                if data[:2] == b"MZ":
+                    try:
+                        pes[n] = ref.pe_image_hash(data, digest)
+                    except (ref.RefError, struct.error):
+                        pass
+            s.check(members == set(pes.values()), "catalog-members-mismatch", "catalog member hashes %s != reference Authenticode hashes of the package's PE files %s" %
+                    (sorted(m.hex()[:16] for m in members), {k: v.hex()[:16] for k, v in pes.items()}))
+    s.distinct.add(("appx", recipe, digest, key, remote, ts))
+
+
 SCENARIOS = {"jar": scen_jar, "pe": scen_pe, "cab": scen_cab, "msi": scen_msi, "apk": scen_apk, "pgp": scen_pgp, "deb": scen_deb, "rpm": scen_rpm,
-             "appmanifest": scen_manifest, "ps": scen_ps, "cat": scen_cat, "xap": scen_xap}
+             "appmanifest": scen_manifest, "ps": scen_ps, "cat": scen_cat, "xap": scen_xap,
+             "dmg": scen_dmg, "macho": scen_macho, "xar": scen_xar, "vsix": scen_vsix, "appx": scen_appx}
 
 
 # ====================================================================================================== the matrix
@@ -865,7 +1116,9 @@ def matrix(tier):
     texts = ["fixture:Release", "text:crlf", "text:dashes", "text:utf8", "text:empty"] + (["text:binary", "text:big"] if T else [])
     for i, r in enumerate(texts):
         for j, m in enumerate(modes):
-            if r == "text:binary" and m == "clearsign":
+            if r == "text:binary" and m in ("clearsign", "textmode", "textmode-armor"):
+                # text-mode signatures over data with bare CR are not well defined: GnuPG drops CRs that precede a line end or the end of
+                # the data, go-crypto keeps them (observed: gpgv BADSIG); binary data is signed in binary modes only
                 continue
             # go-crypto refuses SHA-1 for new OpenPGP signatures: not in the matrix
             for l, dg in enumerate(["sha256", "sha512", "sha384"] + (["sha224"] if T else [])):
@@ -888,6 +1141,24 @@ def matrix(tier):
     for k, dg in (("rsa2048", "sha256"), ("p256", "sha1"), ("p384", "sha512")):
         add("cat", recipe="fixture:hyperv.cat", key=k, digest=dg)
         add("xap", recipe="fixture:dummy.xap", key=k, digest=dg)
+    # ---- Apple containers, VSIX
+    for k, dg in (("rsa2048", "sha256"), ("p256", "sha256"), ("rsa3072", "sha1"), ("p384", "sha384")) + ((("p521", "sha256"),) if T else ()):
+        add("dmg", recipe="fixture:dummy.dmg", key=k, digest=dg)
+        add("macho", recipe="app:slimfile.app", key=k, digest=dg)
+        if k == "p256":
+            add("macho", recipe="app:slimfile.app", key=k, digest=dg, bind=False)
+    for k, dg in (("rsa2048", "sha256"), ("p256", "sha256"), ("rsa3072", "sha1"), ("p384", "sha512")):
+        add("xar", recipe="fixture:dummy.pkg", key=k, digest=dg)
+    add("dmg", recipe="fixture:dummy.dmg", key="rsa2048", digest="sha256", resign=True)
+    add("dmg", recipe="fixture:dummy.dmg", key="p256", digest="sha256", remote=True)
+    add("xar", recipe="fixture:dummy.pkg", key="rsa2048", digest="sha256", remote=True)
+    add("macho", recipe="app:slimfile.app", key="rsa2048", digest="sha256", remote=True)
+    for k, dg, fl in (("rsa2048", "sha256", ()), ("rsa3072", "sha512", ("--detach-certs",)), ("p256", "sha256", ()), ("p521", "sha384", ()), ("rsa2048", "sha1", ())):
+        add("vsix", recipe="fixture:VSIXProject1.vsix", key=k, digest=dg, flags=fl)
+    add("vsix", recipe="fixture:VSIXProject1.vsix", key="rsa2048", digest="sha256", remote=True)
+    for k, dg in (("rsa2048", "sha256"), ("p256", "sha256"), ("rsa3072", "sha384"), ("p521", "sha512")):
+        add("appx", recipe="fixture:App1_1.0.3.0_x64.appx", key=k, digest=dg)
+    add("appx", recipe="fixture:App1_1.0.3.0_x64.appx", key="rsa2048", digest="sha256", remote=True)
     # ---- RFC 3161 timestamps from the local openssl TSA (standalone signing; every PKCS#7 carrier)
     for k, dg in (("rsa2048", "sha256"), ("p256", "sha512"), ("rsa3072", "sha1")) + ((("p521", "sha384"),) if T else ()):
         add("jar", recipe="fixture:hello.jar", key=k, digest=dg, ts=True)
@@ -898,6 +1169,13 @@ def matrix(tier):
         add("cat", recipe="fixture:hyperv.cat", key=k, digest=dg, ts=True)
         add("xap", recipe="fixture:dummy.xap", key=k, digest=dg, ts=True)
         add("appmanifest", recipe="fixture:WindowsFormsApplication1.exe.manifest", key=k, digest=dg, ts=True)
+        if dg in ("sha1", "sha256", "sha512"):      # the xar header knows these checksum algorithms only
+            add("xar", recipe="fixture:dummy.pkg", key=k, digest=dg, ts=True)
+        if dg != "sha1":
+            add("appx", recipe="fixture:App1_1.0.3.0_x64.appx", key=k, digest=dg, ts=True)
+        if dg != "sha512":
+            add("dmg", recipe="fixture:dummy.dmg", key=k, digest=dg, ts=True)
+            add("macho", recipe="app:slimfile.app", key=k, digest=dg, ts=True)
     return M
 
 
